@@ -49,6 +49,7 @@ type ksWorld struct {
 	idents  map[string]*idp.Identity // model: first identity created for id
 	derived map[string]string        // id -> derived hex id (known after ident)
 	touched [2]map[string]bool       // harness-side prediction of what each cache holds (state key only)
+	missed  [2]map[string]bool       // per instance: which kinds of lookups (get miss, has miss, has hit) touched which id since the last eviction/reopen. A cache may remember any of them differently, so they are part of the state key (an abstraction that merged "missed through GetKey" with "missed through HasKey" hid a seeded negative-caching defect)
 	nfill   int
 }
 
@@ -61,6 +62,7 @@ func newKsWorld() *ksWorld {
 		}
 		w.ks[i] = k
 		w.touched[i] = map[string]bool{}
+		w.missed[i] = map[string]bool{}
 	}
 	return w
 }
@@ -81,6 +83,9 @@ func (w *ksWorld) key() string {
 	for i := range t {
 		for k := range w.touched[i] {
 			t[i] = append(t[i], w.abstract(k))
+		}
+		for k := range w.missed[i] {
+			t[i] = append(t[i], "miss:"+w.abstract(k))
 		}
 		sort.Strings(t[i])
 	}
@@ -139,6 +144,7 @@ func (w *ksWorld) apply(p *run.Part, o ksOp, c ksCase, judge bool) bool {
 		k, err := ks.GetKey(ctx, o.ID)
 		want, ok := w.created[o.ID]
 		if !ok {
+			w.missed[o.I]["get:"+o.ID] = true
 			if err == nil {
 				viol("C20:get-invented-key", fmt.Sprintf("GetKey(%s) returned a key for an id that was never created", o.ID))
 			}
@@ -155,6 +161,11 @@ func (w *ksWorld) apply(p *run.Part, o ksOp, c ksCase, judge bool) bool {
 	case "has":
 		has, err := ks.HasKey(ctx, o.ID)
 		_, ok := w.created[o.ID]
+		if !ok {
+			w.missed[o.I]["has:"+o.ID] = true
+		} else {
+			w.missed[o.I]["hashit:"+o.ID] = true
+		}
 		cached := "uncached"
 		if w.touched[o.I][o.ID] {
 			cached = "cached"
@@ -198,6 +209,7 @@ func (w *ksWorld) apply(p *run.Part, o ksOp, c ksCase, judge bool) bool {
 			w.created[name] = rawOf(k)
 		}
 		w.touched[o.I] = map[string]bool{}
+		w.missed[o.I] = map[string]bool{}
 	case "reopen":
 		k, err := keystore.NewKeystore(w.d)
 		if err != nil {
@@ -205,6 +217,7 @@ func (w *ksWorld) apply(p *run.Part, o ksOp, c ksCase, judge bool) bool {
 		}
 		w.ks[o.I] = k
 		w.touched[o.I] = map[string]bool{}
+		w.missed[o.I] = map[string]bool{}
 	}
 	return true
 }
